@@ -229,6 +229,29 @@ func verifMgrOps(env *verifEnv, rng *rand.Rand) []verifMgrOp {
 				return err
 			})
 		}
+		fundOpen := accounts.FundAccountWithContract{Account: env.acct3[0], Cost: types.NewCurrency64(1), Amount: sc(1), Revision: rev, Expiration: time.Now().Add(time.Hour)}
+		add("accounts.AccountManager", "Credit", "while-a-budget-is-open", func(n *verifNode) error {
+			bud, err := n.accounts.Budget(env.acct3[0], types.NewCurrency64(5000))
+			if err != nil {
+				return err
+			}
+			defer bud.Rollback()
+			_, cerr := n.accounts.Credit(fundOpen, false)
+			// with the budget still open the in-memory balance is the stored one minus the reservation
+			mb, _ := n.accounts.Balance(env.acct3[0])
+			n.ctl.mu.Lock()
+			armed := n.ctl.armed
+			n.ctl.armed = false
+			n.ctl.mu.Unlock()
+			sb, serr := n.store.AccountBalance(env.acct3[0])
+			n.ctl.mu.Lock()
+			n.ctl.armed = armed
+			n.ctl.mu.Unlock()
+			if serr == nil && !mb.Add(types.NewCurrency64(5000)).Equals(sb) {
+				verifOpNote = fmt.Sprintf("with a budget of 5000 H open, Balance() = %v but the store has %v (Credit returned %v)", mb, sb, cerr)
+			}
+			return cerr
+		})
 		spend := accounts.Usage{RPCRevenue: types.NewCurrency64(uint64(1 + rng.Intn(1000))), EgressRevenue: types.NewCurrency64(uint64(rng.Intn(1000)))}
 		add("accounts.Budget", "Commit", "budget-spend-commit", func(n *verifNode) error {
 			bud, err := n.accounts.Budget(env.acct3[0], sc(1))
@@ -280,7 +303,12 @@ func verifMgrOps(env *verifEnv, rng *rand.Rand) []verifMgrOp {
 	return ops
 }
 
+// verifOpNote is set by an operation that found the managers' live in-memory state out of
+// step with the store while it was running
+var verifOpNote string
+
 func verifMgrCall(op verifMgrOp, n *verifNode, failAt, kind int) (class int, err error, trace string, fired bool) {
+	verifOpNote = ""
 	n.ctl.Arm(failAt, kind)
 	func() {
 		defer func() {
@@ -369,6 +397,9 @@ func TestVerifC09Mgr(t *testing.T) {
 					// the method tolerates the failure of this call (e.g. a read-back): it
 					// must then have done all of its work
 					em.Count("tolerated-fault:" + name)
+				}
+				if verifOpNote != "" {
+					em.Monitor("cache-differs-from-store-after-failed-call:"+name, fmt.Sprintf("%s k=%d: %s", full, k, verifOpNote))
 				}
 				if inc != "" {
 					em.Monitor("cache-differs-from-store-after-failed-call:"+name, fmt.Sprintf("%s k=%d (%v): %s", full, k, err, inc))
